@@ -15,7 +15,7 @@ import (
 type JV struct {
 	K    string   `json:"k"`              // num str bool null undef arr obj fn sp hole
 	N    string   `json:"n,omitempty"`    // num: exact literal of the double (NumLit form)
-	Form string   `json:"form,omitempty"` // num spelling: lit | flt | i32 | u32 | len
+	Form string   `json:"form,omitempty"` // num spelling: lit | flt | i32 | u32 | len | go:<kind> (a Go value of that kind handed to the script)
 	S    string   `json:"s,omitempty"`    // str: value; fn: body kind; sp: which special
 	B    bool     `json:"b,omitempty"`
 	Keys []string `json:"keys,omitempty"` // obj
@@ -82,7 +82,29 @@ func FormOK(x float64, form string) bool {
 	case "len":
 		return integral && x >= 0 && x <= 40
 	}
+	if strings.HasPrefix(form, "go:") {
+		return goFormOK(x, strings.TrimPrefix(form, "go:"))
+	}
 	return false
+}
+
+// GoForms are the Go kinds a number can originate from (a result, field or element of that kind).
+var GoForms = []string{"go:uint64", "go:uint", "go:int64", "go:int", "go:uint32", "go:int32", "go:uint16", "go:int16", "go:uint8", "go:int8", "go:float32"}
+
+var goKindBits = map[string]int{"int8": 8, "int16": 16, "int32": 32, "int64": 64, "int": 64, "uint8": 8, "uint16": 16, "uint32": 32, "uint64": 64, "uint": 64}
+
+func goFormOK(x float64, kind string) bool {
+	if kind == "float32" {
+		return math.IsNaN(x) || math.IsInf(x, 0) || float64(float32(x)) == x
+	}
+	bits, ok := goKindBits[kind]
+	if !ok || x != math.Trunc(x) || math.IsInf(x, 0) || (x == 0 && math.Signbit(x)) {
+		return false
+	}
+	if kind[0] == 'u' {
+		return x >= 0 && x < math.Ldexp(1, bits)
+	}
+	return x >= -math.Ldexp(1, bits-1) && x < math.Ldexp(1, bits-1)
 }
 
 // GoKind is the Go kind otto's Value carries for this spelling (observed, not assumed by the
@@ -98,6 +120,9 @@ func (v JV) GoKind() string {
 		return "int"
 	case "flt":
 		return "float64"
+	}
+	if strings.HasPrefix(v.Form, "go:") {
+		return strings.TrimPrefix(v.Form, "go:")
 	}
 	if x == math.Trunc(x) && x >= 0 && x < 9007199254740992 && !math.Signbit(x) {
 		return "int64"
@@ -124,6 +149,11 @@ func (v JV) Src() string {
 			return "(" + plain + ">>>0)"
 		case "len":
 			return "(" + strconv.Quote(strings.Repeat("a", int(x))) + ".length)"
+		}
+		if strings.HasPrefix(v.Form, "go:") {
+			// __gonum is a native of the executor: it returns a Value that carries a Go number of
+			// that kind (what a Go result / field / element looks like to the script)
+			return "__gonum(" + strconv.Quote(strings.TrimPrefix(v.Form, "go:")) + "," + strconv.Quote(CanonFloat(x)) + ")"
 		}
 		return "(" + plain + ")"
 	case "str":
